@@ -14,7 +14,7 @@ ASSUME = {
     "C14": ["presentations and dequeues observed through verif-tag hooks in sio/crew.go (RunMachine, ProcessMsg) and cross-checked against the recorder machines' own logs",
             "recorder machines (ECMAScript) append every message to bindings.log and emit bindings.table[id]",
             "a 'to' that is neither a string nor a list is treated as unrouted (weakest reading)",
-            "the mcrew/mdb hosts' routing is covered by the C16 service check (process fan-out) when built"],
+            "mcrew host: recorder machines a, b, c with an acyclic emission graph; every Process invocation observed at the process-locked hook; quiescence = no invocation for 60 ms; cmd/mdb's host is not driven"],
     "C15": ["shadow store = fold of Result.Changed exactly as sio.Stdio folds it; records pass through JSON before a crew is booted from them",
             "a store without a timers record denotes the timers machine's default state; a record without state denotes start/{}",
             "restart equivalence claimed for commuting crews (recorder machines commute); outputs compared as bags of batches per message"],
@@ -40,7 +40,27 @@ def run(pid, tier, seed, replay):
             rep.reject("%s on %s" % (",".join(b[key]), c["raw"][:400]), b.get("sigs", []),
                        {"property": pid, "labels": b[key], "case": {"kind": c["kind"], "raw": c["raw"]}})
     log("  judged %d histories (%s), %d rejected (all properties); stats %s" % (t["lines"], mode, len(bad), stats))
+    extra_stats = {}
+    if pid == "C14" and not replay:
+        # the mcrew host: routing and asynchronous re-processing of emissions, observed at the service's hooks
+        import service_checks
+        files = [os.path.join(vlib.VERIF, f) for f in service_checks.DRIVER]
+        binary = vlib.build_overlay_test(wd, "cmd/mcrew", files)
+        mout = os.path.join(wd, "mcrew_route.ndjson")
+        service_checks.drive(binary, wd, "svc-route", mout, VERIF_SEED=seed, VERIF_N=120 if tier == "quick" else 2500)
+        jd2 = vlib.fresh_dir(pid, "judge_mcrew")
+        bad2, stats2, t2 = vlib.judge_cases(jd2, "Trace_McrewRoute.tla", "Trace_McrewRoute.cfg", mout)
+        for b in bad2:
+            c = b["case"]
+            rep.reject("mcrew host: %s on %s" % (",".join(b["c14"]), c["raw"][:400]), b.get("sigs", []),
+                       {"property": pid, "labels": b["c14"], "host": "mcrew", "case": c})
+        log("  judged %d mcrew routing histories, %d rejected; %s" % (t2["lines"], len(bad2), stats2))
+        extra_stats = {"mcrew." + k: v for k, v in stats2.items()}
+        t["lines"] += t2["lines"]
+        t["distinct"] += t2["distinct"]
+        t["generated"] += t2["generated"]
     rc = rep.finish()
+    stats.update(extra_stats)
     first = json.loads(open(out).readline())
     vlib.write_evidence(pid, tier, seed, {
         "states": max(1, t["distinct"]), "transitions": max(1, t["generated"]), "traces_validated_against_impl": t["lines"],
